@@ -472,7 +472,7 @@ def gen_cases(out, tier):
                 continue
             if res <= 0 and HUNG:
                 continue
-            t, kind = cres(cpts, lambda: with_timeout(3, lambda: densify([tuple(p) for p in coords], res)))
+            t, kind = cres(cpts, lambda: with_timeout(15, lambda: densify([tuple(p) for p in coords], res)))
             add("densify-edge:" + kind, f"CDensify {cpts(coords)} {cq(F(res))} {t}", (coords, res))
 
     # --- segmented on every geometry kind
@@ -486,7 +486,7 @@ def gen_cases(out, tier):
             continue
         if res > 0 and sum(len(s) for s in seqs(real_segmented(g, res))) > 600:
             continue
-        t, kind = cres(cgeom, lambda: with_timeout(3, lambda: real_segmented(g, res)))
+        t, kind = cres(cgeom, lambda: with_timeout(15, lambda: real_segmented(g, res)))
         for k in set(gkinds(g)):
             out.count("segmented-kind:" + k)
         add("segmented:" + kind, f"CSegmented {cgeom(g)} {cq(F(res))} {t}", (g, res), True,
@@ -565,7 +565,7 @@ def gen_cases(out, tier):
         # geometries near / across the antimeridian are judged by the `wrapdateline` search predicate
         G0 = Geometry(to_shapely(g), src)
         try:
-            got = with_timeout(5, lambda: G0.to_crs(dst, resolution=res, wrapdateline=wrap, check_and_fix=cf))
+            got = with_timeout(25, lambda: G0.to_crs(dst, resolution=res, wrapdateline=wrap, check_and_fix=cf))
         except ValueError:
             add("to_crs:ValueError", f"CToCrs {copt(cls.get(src))} {cgeom(g)} {copt(cls.get(dst))} {cresolution(res)} "
                 f"{cbool(wrap)} {cbool(cf)} {cbool(geo)} true [] (Err EValue)", (src, g, dst, str(res)))
@@ -683,7 +683,7 @@ def p_densify(coords, res):
 
     cs = [tuple(map(float, p)) for p in coords]
     try:
-        got = with_timeout(5, lambda: densify(cs, float(res)))
+        got = with_timeout(25, lambda: densify(cs, float(res)))
     except Hang:
         return False, "densify did not return within 5 s"
     ok, detail = check_refinement(cs, got, res)
@@ -698,7 +698,7 @@ def p_segmented(g, res):
 
     G0 = Geometry(to_shapely(g), "EPSG:3857")
     try:
-        G1 = with_timeout(5, lambda: G0.segmented(float(res)))
+        G1 = with_timeout(25, lambda: G0.segmented(float(res)))
     except Hang:
         return False, "segmented did not return within 5 s"
     g1 = from_shapely(G1.geom)
@@ -719,7 +719,7 @@ def p_retain(coords, res):
     from odc.geo.geom import densify
 
     cs = [tuple(map(float, p)) for p in coords]
-    got = with_timeout(10, lambda: densify(cs, float(res)))
+    got = with_timeout(30, lambda: densify(cs, float(res)))
     it = iter(got)
     ok = all(any(q == p for q in it) for p in cs) and got[0] == cs[0] and got[-1] == cs[-1]
     return ok, f"result has {len(got)} points"
@@ -731,7 +731,7 @@ def p_nonpositive(g, res):
 
     G0 = Geometry(to_shapely(g), "EPSG:3857")
     try:
-        G1 = with_timeout(3, lambda: G0.segmented(res))
+        G1 = with_timeout(15, lambda: G0.segmented(res))
     except Hang:
         return False, f"segmented({res}) did not return within 3 s (unbounded loop)"
     except ValueError:
@@ -750,7 +750,7 @@ def p_tocrs(src, g, dst, res, wrap=False, cf=False):
         res_ = float(res)
     G0 = Geometry(to_shapely(g), src)
     try:
-        got = with_timeout(5, lambda: G0.to_crs(dst, resolution=res_, wrapdateline=wrap, check_and_fix=cf))
+        got = with_timeout(25, lambda: G0.to_crs(dst, resolution=res_, wrapdateline=wrap, check_and_fix=cf))
     except Hang:
         return False, "to_crs did not return within 5 s"
     except ValueError as e:
@@ -838,7 +838,7 @@ def p_wrap(src, g, dst):
     from odc.geo.geom import Geometry
 
     G0 = Geometry(to_shapely(g), src)
-    got = with_timeout(10, lambda: G0.to_crs(dst, wrapdateline=True))
+    got = with_timeout(30, lambda: G0.to_crs(dst, wrapdateline=True))
     tr = pyproj_tr(src, dst)
     imgs = [tr.transform(v[0], v[1]) for v in verts(g)]
     thresh = 180 - SNAP_DEG
